@@ -43,7 +43,8 @@ theorem statement_order_assumed :
     Atomic.h2EndBranch = ["self.stream_buffers[event.stream_id].set_complete", "self.priority.unblock", "self.has_data.set",
                           "self.stream_buffers[event.stream_id].drain"] ∧
     Atomic.h2ClosedBranch = ["self._reset_abandoned_response", "self._close_stream"] ∧
-    Atomic.h2SendTask = ["next", "self.has_data.wait", "self.has_data.clear", "self._send_data"] ∧
+    Atomic.h2SendTask = ["next", "self.has_data.wait", "self.has_data.clear", "self._send_data", "self.stream_buffers.values",
+                         "stream_buffer.close"] ∧
     Atomic.h2SendDataTry = ["min", "self.connection.local_flow_control_window", "max", "self.stream_buffers[stream_id].pop",
                             "self.connection.send_data", "self._flush", "self.priority.block", "self._end_stream", "self._flush",
                             "self.stream_buffers[stream_id].close", "self.priority.remove_stream"] ∧
@@ -538,16 +539,16 @@ def pcWeight : TaskPc → Nat
 def strWeight (x : Str) : Nat := x.buf + (if x.inTree && !x.blocked then 1 else 0)
 
 /-- **no spinning** (termination measure): every op of the send task strictly decreases
-    `4·(buffered bytes + schedulable flag of the stream it serves) + 3·[has_data] + weight(pc)` and touches no other stream —
+    `4·(buffered bytes + schedulable flag of the stream it serves) + 3·[has_data] + weight(pc)` and raises no other stream's weight —
     so between two external events the send task takes at most `4·Σ(buf+1) + 4` steps and then sleeps -/
 theorem no_spin_step (s s' : St) (o : Op) (ht : o.isTask = true) (hs : step s o = some s') :
     (∀ i, opStream o = some i →
         4 * strWeight (s'.str i) + (if s'.hasData then 3 else 0) + pcWeight s'.task <
         4 * strWeight (s.str i) + (if s.hasData then 3 else 0) + pcWeight s.task) ∧
-    (opStream o = none → s'.str = s.str ∧
+    (opStream o = none → (∀ i, strWeight (s'.str i) ≤ strWeight (s.str i)) ∧
         (if s'.hasData then 3 else 0) + pcWeight s'.task < (if s.hasData then 3 else 0) + pcWeight s.task) := by
   cases o <;> simp only [Op.isTask] at ht <;> step_cases hs <;>
-    simp_all [opStream, strWeight, pcWeight, upd, Str.discard, Str.closeBuf] <;> (repeat' split) <;> (try simp_all) <;> (try omega)
+    simp_all [opStream, strWeight, pcWeight, upd, Str.discard, Str.closeBuf] <;> (try intro i) <;> (repeat' split) <;> (try simp_all) <;> (try omega)
 
 -- non-vacuity: two streams, one stalls at a zero stream window, the other is delivered and ended
 example :
